@@ -30,7 +30,8 @@ theorem cfg_from_code :
             recKeyFrom := "GetMigratedRecordKey", recKeyTo := "GetMigratedRecordKey",
             wRecFrom := true, wRecTo := true, wDirFrom := true, wDirTo := true, bankAll := true,
             gProposerFrom := true, gProposerTo := true, gDepositFrom := true, gDepositTo := true,
-            gVoteDeposit := true, gVoteFrom := true, gVoteTo := true, qEveryEntry := true, qByDelegator := true } := by
+            gVoteDeposit := true, gVoteFrom := true, gVoteTo := true, qEveryEntry := true, qByDelegator := true,
+            toParseVB := "ValidateEthereumAddress+HexToAddress", toParseSrv := "HexToAddress" } := by
   decide
 
 /-- the bytes `ValidateBasic` hashes are prefix ++ source ++ target, in this order -/
@@ -118,6 +119,40 @@ theorem needs_target_signature {H S : Type} (hash : List Nat → H) (recover : H
   unfold sigAccepted at h2
   rw [signed_bytes_order] at h2
   exact eq_of_beq h2
+
+/-- **the address that receives is the address whose key signed**: the message carries the target as a string; the code
+derives an address from it in `ValidateBasic` (the one the recovered signer is compared with) and again in the message
+server (the one that receives the portfolio and is recorded).  As read from the code, `ValidateBasic` accepts the
+canonical hex spelling only and both sites decode it with `HexToAddress`.  Hence whenever the migration is accepted, the
+two addresses are one: the 20 bytes the string spells, recovered from the signature over (prefix, source, those bytes),
+and the state is the one in which exactly that address received everything.  Hypothesis `hcanon`: go-ethereum's
+`HexToAddress` decodes a canonical hex spelling to the bytes it spells (checked for every generated spelling by the
+harness). -/
+theorem receiver_is_signer {H S : Type} (hash : List Nat → H) (recover : H → S → Option Addr)
+    (pfx : List Nat) (enc : Addr → List Nat) (s s' : State) (frm : Addr) (w : Spelling) (sig : S)
+    (hcanon : w.cls = 0 → w.hex = w.bytes)
+    (h : migrateMsg hash recover pfx enc cfg s frm w sig = .ok s') :
+    w.cls = 0 ∧ parseAt cfg.toParseVB w = some w.bytes ∧ parseAt cfg.toParseSrv w = some w.bytes ∧
+    recover (hash (pfx ++ (enc frm ++ enc w.bytes))) sig = some w.bytes ∧ s' = moved s frm w.bytes := by
+  have e1 : cfg.toParseVB = "ValidateEthereumAddress+HexToAddress" := by rw [cfg_from_code]
+  have e2 : cfg.toParseSrv = "HexToAddress" := by rw [cfg_from_code]
+  unfold migrateMsg at h
+  rw [e1, e2] at h ⊢
+  have hv : parseAt "ValidateEthereumAddress+HexToAddress" w = if w.cls == 0 then some w.hex else none := by
+    simp [parseAt]
+  have hs : parseAt "HexToAddress" w = some w.hex := by simp [parseAt]
+  rw [hv, hs] at h ⊢
+  by_cases hc : w.cls = 0
+  · have hb : (w.cls == 0) = true := by simp [hc]
+    rw [hb] at h ⊢
+    simp only [↓reduceIte] at h ⊢
+    rw [hcanon hc] at h ⊢
+    exact ⟨hc, rfl, rfl, needs_target_signature hash recover pfx enc s s' frm w.bytes sig h,
+      (migrate_ok_inv h).2.2.2.2.2.2.2⟩
+  · have hb : (w.cls == 0) = false := by simp [hc]
+    rw [hb] at h
+    simp at h
+
 
 /-- the signed bytes determine the (source, target) pair when addresses are encoded with a fixed width -/
 theorem signed_pair_injective (pfx : List Nat) (enc : Addr → List Nat) (w : Nat) (hw : ∀ a, (enc a).length = w)
@@ -704,6 +739,7 @@ theorem idxInv_step {s : State} (h : IdxInv s) (op : Op) : IdxInv (step cfg s op
       · cases hs; exact idxInv_of_fields h rfl rfl rfl rfl rfl rfl rfl
   | block dt => exact idxInv_endBlock h dt
   | setPeriods dp vp => exact idxInv_of_fields h rfl rfl rfl rfl rfl rfl rfl
+  | setUnbond n => exact idxInv_of_fields h rfl rfl rfl rfl rfl rfl rfl
   | migrate f t sg =>
     simp only [step]
     cases hm : migrate cfg s f t sg with
@@ -803,6 +839,7 @@ theorem qInv_step {s : State} (h : QInv s) (op : Op) : QInv (step cfg s op).1 :=
       · cases hs; exact qInv_of_fields h rfl rfl rfl rfl
   | block dt => exact qInv_endBlock h dt
   | setPeriods dp vp => exact qInv_of_fields h rfl rfl rfl rfl
+  | setUnbond n => exact qInv_of_fields h rfl rfl rfl rfl
   | migrate f t sg =>
     simp only [step]
     cases hm : migrate cfg s f t sg with
@@ -936,6 +973,7 @@ theorem siIdInv_step {s : State} (h : SiInv s ∧ IdInv s) (op : Op) : SiInv (st
       · cases hh; exact same _ rfl rfl ⟨rfl, rfl, rfl, rfl⟩
   | block dt => exact ⟨siInv_frame hs (sframe_endBlock s dt), idInv_endBlock hi dt⟩
   | setPeriods dp vp => exact same _ rfl rfl ⟨rfl, rfl, rfl, rfl⟩
+  | setUnbond n => exact same _ rfl rfl ⟨rfl, rfl, rfl, rfl⟩
   | migrate f t sg =>
     simp only [step]
     cases hm : migrate cfg s f t sg with
@@ -994,6 +1032,7 @@ theorem records_kept (s : State) (op : Op) (a : Addr) (h : (get s.recs a).isSome
   | vote x id => exact keep _ (fun s' hs => vote_recs hs)
   | block dt => simp only [step]; rw [endBlock_recs]; exact h
   | setPeriods dp vp => exact h
+  | setUnbond n => exact h
   | migrate f t sg =>
     simp only [step]
     cases hm : migrate cfg s f t sg with
